@@ -60,7 +60,7 @@ fn cmd_check(args: &[String]) -> i32 {
         seed,
         runs,
         workers: workers(),
-        run_timeout: Duration::from_secs(if tier == Tier::Thorough { 240 } else { 150 }),
+        run_timeout: Duration::from_secs(if tier == Tier::Thorough { 400 } else { 300 }),
         batch_budget: Duration::from_secs(if tier == Tier::Thorough { 780 } else { 85 }),
         level: "exploration".into(),
         also_owns: vec![],
@@ -178,9 +178,18 @@ fn cmd_verify(args: &[String]) -> i32 {
     };
     let mut files: Vec<std::path::PathBuf> = std::fs::read_dir(&dir).map(|r| r.filter_map(|e| e.ok()).map(|e| e.path()).filter(|p| p.extension().map(|x| x == "json").unwrap_or(false)).collect()).unwrap_or_default();
     files.sort();
-    let docs: Vec<serde_json::Value> = files.iter().map(|p| std::fs::read(p).ok().and_then(|b| serde_json::from_slice(&b).ok()).unwrap_or(serde_json::Value::Null)).collect();
+    let mut docs: Vec<serde_json::Value> = vec![];
+    let mut kept = vec![];
+    for p in files {
+        let d: serde_json::Value = std::fs::read(&p).ok().and_then(|b| serde_json::from_slice(&b).ok()).unwrap_or(serde_json::Value::Null);
+        if d.get("case").is_some() && d.get("expect").is_some() {
+            docs.push(d);
+            kept.push(p);
+        }
+    }
+    let files = kept;
     let base = pool::default_scratch_base();
-    let cfg = PoolCfg { workers: workers(), timeout: Duration::from_secs(180), scratch: base.join("verify"), deadline: None };
+    let cfg = PoolCfg { workers: workers(), timeout: Duration::from_secs(300), scratch: base.join("verify"), deadline: None };
     let jobs: Vec<u64> = (0..docs.len() as u64).collect();
     let res = pool::run_jobs(&cfg, &jobs, |j| driver::exec_case_inline(&CorruptSim, &docs[j as usize]["case"]));
     pool::cleanup(&base);
@@ -223,7 +232,7 @@ fn cmd_selfcheck(args: &[String]) -> i32 {
     let jobs: Vec<u64> = (0..n).collect();
     let mut hashes: Vec<Vec<(u64, String)>> = vec![];
     for (round, w) in [(0, 4usize), (1, 16usize)] {
-        let cfg = PoolCfg { workers: w, timeout: Duration::from_secs(120), scratch: base.join(format!("det{}", round)), deadline: None };
+        let cfg = PoolCfg { workers: w, timeout: Duration::from_secs(300), scratch: base.join(format!("det{}", round)), deadline: None };
         if round == 1 {
             std::env::set_var("VSIM_PAD", "x".repeat(777));
         }
@@ -291,7 +300,7 @@ fn minimise_site(v: &Violation, base: &std::path::Path, budget: usize) -> (Viola
             if execs >= budget {
                 break 'outer;
             }
-            let cfg = PoolCfg { workers: w, timeout: Duration::from_secs(60), scratch: base.join("min"), deadline: None };
+            let cfg = PoolCfg { workers: w, timeout: Duration::from_secs(300), scratch: base.join("min"), deadline: None };
             let jobs: Vec<u64> = (0..chunk.len() as u64).collect();
             let res = pool::run_jobs(&cfg, &jobs, |j| CorruptSim.run_case(&chunk[j as usize]));
             execs += chunk.len();
@@ -326,7 +335,7 @@ fn cmd_survey(args: &[String]) -> i32 {
     let json_out = arg_value(args, "--json");
     let mut json_sites: Vec<serde_json::Value> = vec![];
     let base = pool::default_scratch_base();
-    let cfg = PoolCfg { workers: workers(), timeout: Duration::from_secs(120), scratch: base.join("survey"), deadline: None };
+    let cfg = PoolCfg { workers: workers(), timeout: Duration::from_secs(300), scratch: base.join("survey"), deadline: None };
     let jobs: Vec<u64> = (0..n).collect();
     let t0 = std::time::Instant::now();
     let res = pool::run_jobs(&cfg, &jobs, |j| CorruptSim.run_seeded(&profile, seed, j, tier));
